@@ -10,6 +10,7 @@ def tasks(tier, seed):
     # early close while the workers are busy (abort paths)
     ts += SCH.sched_tasks(tier, [], 'race_close', None, {'race', 'memory', 'uncaught_exception', 'terminate', 'deadlock', 'hang', 'leak'},
                           race=True, in_cs=True, extra_defs='#undef EARLY_CLOSE_AFTER\n#define EARLY_CLOSE_AFTER 1\n', nobj=3)
+    ts += SCH.two_file_tasks(tier, 'race', {'race', 'memory', 'uncaught_exception', 'terminate', 'deadlock', 'hang'}, race=True)
     meta = dict(
         level='model_checking',
         explanation='The whole write and read pipeline of the real File runs in llsym with three cooperative threads per session; '
